@@ -101,8 +101,8 @@ def groups(tier, seed):
         add('irregular', Classes={'Irregular'}, MaxL=4, MaxN=8, Queries=ALLQ, DxCap=2, MultiMod=61, IrrMod=83, MaxRemove=2, MaxAdd=2)
         add('helical', Classes={'Helical'}, MaxLx=3, MaxLy=3, MaxN=27, Queries=ALLQ, MultiMod=61, BFMaxN=12)
         add('derive', Classes={'Chain', 'Ladder', 'NLegLadder', 'Square', 'Honeycomb', 'Kagome', 'Multi', 'Irregular', 'Helical'},
-            MaxL=4, MaxLx=3, MaxLy=2, MaxN=12, BcMpsSet=FMT, Queries=ALLQ - {'neighbors'}, DxCap=2, MultiMod=101, IrrMod=41,
-            PermMults=set(), EnlargeSet={2, 3}, EnlargeVia={'inplace', 'copy', 'segment'}, GroupSet={2, 3}, BFMaxN=12)
+            MaxL=3, MaxLx=2, MaxLy=2, MaxN=8, BcMode='periodic', BcMpsSet=FMT, Queries=ALLQ - {'neighbors'}, DxCap=1, MultiMod=401,
+            IrrMod=101, PermMults=set(), EnlargeSet={2, 3}, EnlargeVia={'inplace', 'copy', 'segment'}, GroupSet={2, 3}, BFMaxN=12)
     return g
 
 
